@@ -41,6 +41,15 @@ def one_statement_problems(sql):
         probs.append("top-level ';' (more than one statement)")
     if sk.count("(") != sk.count(")"):
         probs.append("unbalanced parentheses")
+    import re
+
+    flat = " ".join(sk.split())
+    if re.search(r"\bSELECT\s+(DISTINCT\s+)?FROM\b", flat, re.I):
+        probs.append("a SELECT with an empty column list")
+    if re.search(r",\s*FROM\b|\bSELECT\s*,|,\s*,", flat, re.I):
+        probs.append("a dangling comma in a column list")
+    if re.search(r"\b(WHERE|HAVING|ON)\s*(GROUP BY|ORDER BY|LIMIT|\)|$)", flat, re.I):
+        probs.append("an empty WHERE / HAVING / ON clause")
     return probs
 
 
@@ -415,6 +424,11 @@ def execute(run, prop, shard):
         for j in range(60 if run.tier == "quick" else 500):
             try:
                 corp.append((("collide", j), gen.gen_collide(pipeline.case_seed(run.seed + 13, run.tier, 0, j))))
+            except Exception:
+                run.counters["generator_failures"] += 1
+        for j in range(60 if run.tier == "quick" else 500):
+            try:
+                corp.append((("subq_edges", j), gen.gen_subq_edges(pipeline.case_seed(run.seed + 17, run.tier, 0, j))))
             except Exception:
                 run.counters["generator_failures"] += 1
         for tag, prog in corp:
